@@ -235,3 +235,62 @@ def asl_phases(facts, P):
     res['pf'] = pf
     _phase_cache[id(P)] = res
     return res
+
+
+def is_generator_unit(name):
+    return name.startswith('code') and name not in ('codepseudo.c', 'codevars.c', 'codechunks.c')
+
+
+def foreign_scratch_rule(chk, P, rule, only=None, min_instances=300):
+    """Def-before-use at module granularity for the core's shared scratch
+    variables: a code generator that reads (or read-modify-writes) a core
+    global which other generators assign must get its value from itself or
+    from the core.  If neither this module nor any core module ever assigns the
+    variable, what the generator consumes is whatever the target assembled
+    before it left there (or the zero of program start): the encoding then
+    depends on history and is wrong for at least one of the two."""
+    wi = P.write_index()
+    gdef = set()
+    for u in P.units:
+        if is_generator_unit(u.name):
+            continue
+        for g in u.globals.values():
+            if g['kind'] == 'g' and g.get('def'):
+                gdef.add(g['name'])
+    per = collections.defaultdict(lambda: {'r': [], 'w': False})
+    for u in P.units:
+        if not is_generator_unit(u.name):
+            continue
+        for f in u.funcs.values():
+            if f.file != u.name:
+                continue
+            for k, how, ln, *_ in P.writes(f):
+                if k in gdef:
+                    if how in ('=', 'elem', 'addr', 'ptr'):
+                        per[(u.name, k)]['w'] = True
+                    else:
+                        per[(u.name, k)]['r'].append((ln, f))
+            for k, ln, *_ in P.reads(f):
+                if k in gdef:
+                    per[(u.name, k)]['r'].append((ln, f))
+    n = 0
+    for (un, k), d in sorted(per.items()):
+        if not d['r']:
+            continue
+        ws = wi.get(k, [])
+        if not any(is_generator_unit(f.unit.name) and how in ('=', 'op', 'elem') for f, how, *_ in ws):
+            continue        # not a variable generators write: configuration or core state
+        n += 1
+        if only is not None and un not in only:
+            continue
+        corew = sorted({f.unit.name for f, how, *_ in ws if not is_generator_unit(f.unit.name) and how in ('=', 'elem', 'addr', 'ptr')})
+        ok = d['w'] or bool(corew)
+        ln, f = min(d['r'], key=lambda t: t[0])
+        others = sorted({f2.unit.name for f2, how, *_ in ws if f2.unit.name != un})
+        chk.ob(rule, '%s:%s' % (un, k), ok, f.loc(ln),
+               ('assigned by this module' if d['w'] else 'assigned by the core (%s)' % ', '.join(corew[:3])) if ok else
+               '%s() consumes the shared scratch variable %s, which neither %s nor any core module ever assigns; its only '
+               'writers are other targets\' generators (%s): the emitted code depends on what was assembled before' %
+               (f.name, k, un, ', '.join(others[:4])))
+    if n < min_instances:
+        raise AnalysisBroken('%s: only %d (generator, shared variable) pairs found' % (rule, n))
